@@ -59,8 +59,38 @@ Definition long_words_of (lp mw : nat) (text : str) : list str :=
 
 Definition has_long (L : list str) (l : str) : bool := existsb (fun w => contains w l) L.
 
-(* the width rule for one line *)
+(* the width rule for one line, weak form: it keeps to max_width or contains an unbreakable word *)
 Definition line_ok (mw : nat) (L : list str) (l : str) : bool := (length l <=? mw) || has_long L l.
+
+(* the width rule, strict form ("no line exceeds max_width unless a single unbreakable word forces it"):
+   the line is an admissible beginning `b` (one that keeps to max_width; for the first line behind a wide
+   left column: that column) followed by nothing but unbreakable words, each behind one blank.  Hence a line
+   that exceeds max_width ENDS with an unbreakable word, and so does what remains when that word and its blank
+   are taken away, down to the admissible beginning.  (Several unbreakable words in a row stay on one line:
+   format_padded never breaks in front of such a word.) *)
+Definition fits (mw : nat) (l : str) : bool := length l <=? mw.
+
+Definition wide_line (base : str -> bool) (L : list str) (l : str) : Prop :=
+  exists b ws, l = b ++ flat_map (fun w => sp :: w) ws /\ base b = true /\ Forall (fun w => In w L) ws.
+
+(* the same, executable: judge the line by its LAST word and by the line without it *)
+Definition strip_suffix (s l : str) : option str :=
+  if length s <=? length l then
+    let k := length l - length s in
+    if seq_eqb (skipn k l) s then Some (firstn k l) else None
+  else None.
+
+Fixpoint strip_ok (fuel : nat) (base : str -> bool) (L : list str) (l : str) : bool :=
+  base l ||
+  match fuel with
+  | 0 => false
+  | S f => existsb (fun w => match strip_suffix (sp :: w) l with
+                             | Some l' => strip_ok f base L l'
+                             | None => false
+                             end) L
+  end.
+
+Definition line_strict (mw : nat) (L : list str) (l : str) : bool := strip_ok (length l) (fits mw) L l.
 
 (* ------------------------------------------------------------------ the whole usage text *)
 
@@ -134,8 +164,10 @@ Definition one_line_inputs (d : decl) (lt : list odecl) : bool :=
   no_nl (d_app d) && no_nl (synopsis_text d lt) &&
   forallb (fun o => no_nl (block_head o) && no_nl (block_text o)) (all_decls d).
 
+(* an admissible beginning of a line of the usage text: it keeps to 80 columns, or it is a line the developer supplied *)
+Definition usage_base (d : decl) (b : str) : bool := fits 80 b || existsb (seq_eqb b) (dev_lines d).
 Definition usage_line_ok (d : decl) (lt : list odecl) (l : str) : bool :=
-  line_ok 80 (usage_long_words d lt) l || existsb (seq_eqb l) (dev_lines d).
+  strip_ok (length l) (usage_base d) (usage_long_words d lt) l.
 
 (* ------------------------------------------------------------------ the oracle, on any text t *)
 
@@ -158,8 +190,8 @@ Definition check_fp_width (pre text : str) (lp mw : nat) (out : str) : bool :=
   if no_nl pre && no_nl text && (lp <? mw)
   then match lines (pre ++ out) with
        | first :: rest =>
-         (line_ok mw (long_words_of lp mw text) first || ((lp <? length pre) && seq_eqb first pre))
-         && forallb (line_ok mw (long_words_of lp mw text)) rest
+         strip_ok (length first) (fun b => if lp <? length pre then seq_eqb b pre else fits mw b) (long_words_of lp mw text) first
+         && forallb (line_strict mw (long_words_of lp mw text)) rest
        | [] => false
        end
   else true.
